@@ -219,7 +219,7 @@ Definition code_loop (l : option loopst) : list nat :=
   end.
 Definition fingerprint (st : cstate) : list nat :=
   [code_bool (created st); code_bool (present st); code_bool (mgr_up st); code_bool (disabled st);
-   code_onat (lockh st); code_obool (sess_file st); arch_ver st; code_bool (is_some (arch_file st)); status st;
+   code_obool (sess_file st); arch_ver st; code_bool (is_some (arch_file st)); status st;
    List.length (answered st); next_gen st; tid_bound st]
   ++ code_loop (loop st)
   ++ flat_map (fun th => th_id th :: code_tpc (th_pc th)) (threads st).
